@@ -22,14 +22,13 @@ def shiftOp (d : Nat) : Op → Op
   | .mkq k c dom => .mkq (k + d) c (dom.map (·.map (sh d)))
   | .evalq k => .evalq (k + d)
   | .dropq k => .dropq (k + d)
+  | .newrole o c p e => .newrole (sh d o) c p (sh d e)
   | op => op
 
 def shiftX (d : Nat) : XOp → XOp
   | .m op => .m (shiftOp d op)
   | .attach r o => .attach (sh d r) (sh d o)
   | .detach r => .detach (sh d r)
-  | .newrole o e => .newrole (sh d o) (sh d e)
-  | .roleset f o g => .roleset f (sh d o) (sh d g)
   | .newholder o r => .newholder (sh d o) (sh d r)
   | .clone o s deep => .clone (sh d o) (sh d s) deep
   | .adopt o s f => .adopt (sh d o) (sh d s) f
@@ -102,7 +101,7 @@ def cleanup (body : List LOp) : List LOp :=
   let dq : List Op := body.filterMap (fun op => match op with
     | .x (XOp.m (Op.mkq k _ _)) => some (Op.dropq k) | .qstart k _ => some (Op.dropq (iterKey k)) | _ => none)
   let dr : List Op := body.filterMap (fun op => match op with
-    | .x (XOp.m (Op.new o _ _)) => some (Op.drop o) | .x (XOp.newrole o _) => some (Op.drop o)
+    | .x (XOp.m (Op.new o _ _)) => some (Op.drop o) | .x (XOp.m (Op.newrole o _ _ _)) => some (Op.drop o)
     | .x (XOp.newholder o _) => some (Op.drop o) | .x (XOp.clone o _ _) => some (Op.drop o)
     | .x (XOp.adopt o _ _) => some (Op.drop o) | _ => none)
   (dq ++ dr ++ [Op.sweep]).map (fun o => LOp.x (XOp.m o))
@@ -139,7 +138,7 @@ def runLoop (q : Quirks) (n : Nat) (pre body : List LOp) : LSt × List Sizes × 
       let died := before.any (fun o => !r2.st.h.isLive o)
       let diedBody := (r.st.h.live.map (·.obj) ++
           (b.filterMap fun op => match op with
-            | .x (.m (.new o _ _)) => some o | .x (.newrole o _) => some o | .x (.newholder o _) => some o
+            | .x (.m (.new o _ _)) => some o | .x (.m (.newrole o _ _ _)) => some o | .x (.newholder o _) => some o
             | .x (.clone o _ _) => some o | .x (.adopt o _ _) => some o | _ => none)).any
         (fun o => !r2.st.h.isLive o)
       go (i + 1) fuel r2 (acc ++ [sizes r2.st]) died (diedEver || diedBody)
